@@ -542,6 +542,14 @@ pub fn gen_cols(g: &mut G<'_>, n: usize, bin: bool) -> Vec<ColSpec> {
 }
 
 pub fn gen_row(g: &mut G<'_>, cols: &[ColSpec], bin: bool, last: bool) -> RowProg {
+    if cols.is_empty() {
+        // "if no columns are emitted, any written rows are ignored": cells offered to a zero-column
+        // resultset are accepted and dropped; only ended rows count
+        let n = g.usize_in(0, 2);
+        let cells: Vec<Val> = (0..n).map(|_| Val::plain(Base::I32(g.below(100) as i32))).collect();
+        let form = *g.pick(&[RowForm::WriteRow, RowForm::WriteRowRef, RowForm::Cols, RowForm::Cols]);
+        return RowProg { cells, form };
+    }
     let cells: Vec<Val> = cols.iter().map(|c| gen_cell(g, c, bin)).collect();
     let form = match g.weighted(&[3, 2, 3, if last && !cols.is_empty() { 2 } else { 0 }]) {
         0 => RowForm::WriteRow,
